@@ -21,7 +21,8 @@ RULE = ("Episodes = feeder net with 2W/3W tap changers + 1-5 controllers (Discre
         "max_iter 1..30, planned failures of run invocations, continue_on_divergence; 1-3 run_control / "
         "runpp(run_control=True) calls on the same net with edits in between. Non-trivial = a call whose recorded "
         "event history was checked by the five oracles; distinct = distinct (controller class multiset, number of "
-        "levels, outcome class, max_iter hit, failure pattern, call index).")
+        "levels, outcome class, max_iter hit, failure pattern, call index)."
+        ' Tap changers of 3W transformers on any winding, 180 degree tap steps, vectorised controllers (two transformers, list/array/Index), float and negative levels/orders, planned failure pairs (an evaluation and its retry).')
 COMPONENTS = {"real": ["run_control / control_implementation / get_controller_order", "DiscreteTapControl, "
                        "ContinuousTapControl, ConstControl", "runpp inside the recording wrapper"],
               "stub": ["probe controllers (converge after n steps / never / flip-flop)", "recording wrappers on "
